@@ -57,6 +57,8 @@ type loopInfo struct {
 type Gen struct {
 	ctIdents     map[string]bool
 	inlineOf     *Gen // non-nil: executing a contract-less helper in place on behalf of inlineOf
+	inlinePos    token.Pos       // position of the call that entered this helper
+	curIns       ssa.Instruction // the instruction being executed
 	usedSites    map[string]bool
 	sitePos      token.Pos
 	eng          *Engine
